@@ -224,36 +224,46 @@ type profile struct {
 	gap                      [10]int // index into gaps
 	variant                  [5]int
 	length                   [5]int // 1 | 2-4 | 0 | 50-52 | 120 entries
-	dd                       [7]int
+	dd                       [8]int
 	holdBefore               [5]int // index into holds
+	reset                    [5]int // stage at which the client resets the request stream (resetNever ...)
 }
+
+var hollowAnnounced = []int{8000, 8192, 4096, 1000, 16000}
+var hollowCarried = []int{0, 0, 10, 150, 1000}
 
 var profiles = []profile{
 	{maxPeers: 5, minReq: 1, maxReq: 14,
 		entry:   [14]int{3, 4, 3, 3, 1, 1, 1, 3, 2, 2, 1, 1, 1, 1},
 		gap:     [10]int{8, 2, 3, 3, 2, 3, 2, 1, 2, 1},
 		variant: [5]int{14, 1, 1, 1, 1}, length: [5]int{8, 6, 1, 2, 1},
-		dd: [7]int{6, 5, 2, 3, 1, 2, 1}, holdBefore: [5]int{8, 2, 2, 1, 1}},
+		dd: [8]int{6, 5, 2, 3, 1, 2, 1, 3}, holdBefore: [5]int{8, 2, 2, 1, 1}, reset: [5]int{16, 1, 1, 1, 1}},
 	{maxPeers: 2, minReq: 2, maxReq: 8, peerBias: 4,
 		entry:   [14]int{1, 1, 5, 5, 1, 1, 1, 0, 0, 0, 0, 0, 0, 0},
 		gap:     [10]int{10, 3, 2, 1, 0, 0, 0, 0, 0, 0},
 		variant: [5]int{1, 0, 0, 0, 0}, length: [5]int{6, 1, 0, 0, 0},
-		dd: [7]int{10, 2, 0, 1, 1, 1, 0}, holdBefore: [5]int{2, 4, 4, 1, 0}},
+		dd: [8]int{10, 2, 0, 1, 1, 1, 0, 1}, holdBefore: [5]int{2, 4, 4, 1, 0}, reset: [5]int{10, 2, 2, 1, 1}},
 	{maxPeers: 3, minReq: 3, maxReq: 14,
 		entry:   [14]int{1, 8, 1, 2, 0, 1, 0, 1, 0, 0, 0, 0, 0, 0},
 		gap:     [10]int{4, 1, 2, 3, 4, 4, 3, 2, 3, 2},
 		variant: [5]int{20, 0, 1, 0, 0}, length: [5]int{8, 2, 0, 0, 0},
-		dd: [7]int{4, 2, 0, 0, 0, 6, 0}, holdBefore: [5]int{10, 1, 1, 0, 0}},
+		dd: [8]int{4, 2, 0, 0, 0, 6, 0, 0}, holdBefore: [5]int{10, 1, 1, 0, 0}, reset: [5]int{1, 0, 0, 0, 0}},
 	{maxPeers: 3, minReq: 3, maxReq: 14, peerBias: 3,
 		entry:   [14]int{1, 8, 1, 2, 0, 1, 0, 1, 0, 0, 0, 0, 0, 0},
 		gap:     [10]int{4, 1, 2, 3, 4, 4, 3, 2, 3, 2},
 		variant: [5]int{20, 0, 1, 0, 0}, length: [5]int{8, 2, 0, 0, 0},
-		dd: [7]int{4, 2, 0, 0, 0, 6, 0}, holdBefore: [5]int{10, 1, 1, 0, 0}},
+		dd: [8]int{4, 2, 0, 0, 0, 6, 0, 0}, holdBefore: [5]int{10, 1, 1, 0, 0}, reset: [5]int{1, 0, 0, 0, 0}},
 	{maxPeers: 3, minReq: 3, maxReq: 14,
 		entry:   [14]int{0, 2, 4, 6, 1, 1, 0, 0, 0, 0, 0, 0, 0, 0},
 		gap:     [10]int{4, 1, 2, 3, 4, 4, 3, 2, 3, 2},
 		variant: [5]int{1, 0, 0, 0, 0}, length: [5]int{8, 2, 0, 0, 0},
-		dd: [7]int{3, 2, 0, 0, 0, 8, 0}, holdBefore: [5]int{10, 1, 0, 0, 0}},
+		dd: [8]int{3, 2, 0, 0, 0, 8, 0, 2}, holdBefore: [5]int{10, 1, 0, 0, 0}, reset: [5]int{1, 0, 0, 0, 0}},
+	// 5 = slot accounting: the draws below are overridden by the role of each request
+	{maxPeers: 2, minReq: 4, maxReq: 4,
+		entry:   [14]int{1, 0, 0, 0, 0, 0, 0, 0, 0, 0, 0, 0, 0, 0},
+		gap:     [10]int{1, 0, 0, 0, 0, 0, 0, 0, 0, 0},
+		variant: [5]int{1, 0, 0, 0, 0}, length: [5]int{1, 0, 0, 0, 0},
+		dd: [8]int{1, 0, 0, 0, 0, 0, 0, 0}, holdBefore: [5]int{1, 0, 0, 0, 0}, reset: [5]int{1, 0, 0, 0, 0}},
 }
 
 // C16_BASIC_DIALER=1 gives the service a basic host (identify) as its dialer host instead of the blank host that
@@ -272,10 +282,18 @@ func run(t *testing.T, tape *simrt.Tape) *common.Outcome {
 	// ---- configuration -------------------------------------------------------------------
 	// The stratum is drawn first: 0 = general mix; 1 = concurrency (generous per-minute limits, bursts of one
 	// peer's requests that need dial data and are held before the data is sent); 2, 3, 4 = windows (ONE tight
-	// per-minute limit — global, per-peer, dial-data — the others generous; many cheap requests over minutes).
-	stratum := g.Weighted(3, 2, 1, 1, 1)
+	// per-minute limit — global, per-peer, dial-data — the others generous; many cheap requests over minutes);
+	// 5 = slot accounting: one peer keeps limit-1 requests in service (held in the dial-data phase), lets 1-2
+	// further requests FAIL at a drawn stage (reset when the dial-back arrives / after it was answered / after the
+	// request / after the dial data / in the dial-data phase, dial-back reset or unanswered), then opens limit+1
+	// new requests while the first ones are still in service.
+	stratum := g.Weighted(3, 2, 1, 1, 1, 2)
 	pf := profiles[stratum]
+	nHeld, nFail, nFollow := 0, 0, 0
 	switch stratum {
+	case 5:
+		w.lim = limits{rpm: 14, perPeer: 12, dialData: 10, maxConc: g.Range(2, 3)}
+		nHeld, nFail, nFollow = w.lim.maxConc-1, g.Range(1, 2), w.lim.maxConc+1
 	case 1:
 		w.lim = limits{rpm: 12, perPeer: 8, dialData: 8, maxConc: g.Range(1, 3)}
 	case 2:
@@ -296,6 +314,9 @@ func run(t *testing.T, tape *simrt.Tape) *common.Outcome {
 	}
 	seed := int64(g.Int(1 << 16))
 	nReq := g.Range(pf.minReq, pf.maxReq)
+	if stratum == 5 {
+		nReq = nHeld + nFail + nFollow
+	}
 
 	idOf := func(seed int) peer.ID {
 		id, err := peer.IDFromPrivateKey(simhost.DetKey(seed))
@@ -440,6 +461,51 @@ func run(t *testing.T, tape *simrt.Tape) *common.Outcome {
 		}
 		p.dbHold = holds[g.Weighted(10, 2, 2, 1, 0)]
 		p.dbReply = g.Weighted(8, 1, 1)
+		p.resetAt = g.Weighted(pf.reset[:]...)
+		if d.mode == ddHollow {
+			d.sizeA, d.sizeB = hollowAnnounced[d.sizeA%len(hollowAnnounced)], hollowCarried[d.sizeB%len(hollowCarried)]
+		}
+		if stratum == 5 {
+			// the role of the request in the slot-accounting scenario overrides what was drawn above
+			p.peer, p.variant, p.gap, p.dbReply, p.resetAt = 0, varNormal, 0, 0, resetNever
+			c := cl[0]
+			foreign := func() []entry {
+				if g.Chance(1, 3) {
+					return []entry{tcpEntry("ip4", ipV, 4001, "", clsYes, true)}
+				}
+				return []entry{tcpEntry("ip4", c.altIP, 4001, "", clsYes, true)}
+			}
+			*d = ddPlan{mode: ddCorrect, exact: g.Bool()}
+			switch {
+			case j < nHeld: // kept in service for 6 s
+				p.entries, d.holdBefore, p.dbHold = foreign(), holds[3], 0
+			case j < nHeld+nFail: // fails at a drawn stage
+				if j == nHeld {
+					p.gap = []time.Duration{300 * time.Millisecond, time.Second}[g.Int(2)]
+				}
+				p.entries = []entry{tcpEntry("ip4", c.ip, c.port, "", clsYes, true)}
+				if g.Chance(1, 4) {
+					p.entries = foreign()
+				}
+				p.dbHold = []time.Duration{300 * time.Millisecond, 0, 2 * time.Second}[g.Int(3)]
+				p.partHold = []time.Duration{0, 100 * time.Millisecond}[g.Int(2)]
+				switch k := g.Int(7); k {
+				case 0, 1, 2, 3:
+					p.resetAt = 1 + k
+				case 4:
+					p.dbReply = 1
+				case 5:
+					p.dbReply = 2
+				case 6:
+					p.entries, d.mode, d.count, d.after = foreign(), ddAbort, g.Int(3), 2
+				}
+			default: // the newcomers
+				if j == nHeld+nFail {
+					p.gap = time.Second
+				}
+				p.entries, d.holdBefore, p.dbHold = foreign(), holds[2], 0
+			}
+		}
 		plans[j] = p
 		r := &reqRec{idx: j, plan: p, nonce: uint64(0xA000 + j)}
 		w.recs = append(w.recs, r)
@@ -456,6 +522,9 @@ func run(t *testing.T, tape *simrt.Tape) *common.Outcome {
 		}
 		o.Logf("plan R%d: +%v client C%d %s addrs(%d)=[%s] %s dial-back: hold=%v reply=%d", j, p.gap, p.peer, variantNames[p.variant], len(p.entries),
 			strings.Join(ds, " "), d, p.dbHold, p.dbReply)
+		if p.resetAt != resetNever {
+			o.Logf("      the client resets the request stream %s", resetNames[p.resetAt])
+		}
 	}
 
 	var nodes []*simhost.Node
